@@ -131,7 +131,8 @@ class ModuleInfo:
         except SyntaxError as e:
             raise AnalysisError("cannot parse %s: %s" % (rel, e))
         # locals are brought back to their canonical names by role (sa/localroles.py): no rule depends on what a local is called
-        from .localroles import canonicalise
+        from .localroles import canonicalise, canonical_comparisons
+        self.comparisons_mirrored = canonical_comparisons(self.tree) if not os.environ.get("VERIF_NO_CANON") else 0
         self.locals_renamed = canonicalise(self.tree, rel)
         self.lines = self.source.splitlines()
         self.functions: Dict[str, FuncInfo] = {}
@@ -418,3 +419,26 @@ def discover_locals(func_node: ast.AST, roles) -> Dict[str, str]:
                         out[got] = canon
                     break
     return out
+
+
+def membership_test(test: ast.AST, evaluate):
+    """`x in (c1, .., cn)` or `x == c1 or .. or x == cn` -> (text of x, frozenset of the constants); else None.
+    `evaluate(node)` returns the constant value of a node or raises / returns None."""
+    def val(n):
+        try:
+            return evaluate(n)
+        except Exception:       # noqa: BLE001
+            return None
+    if isinstance(test, ast.Compare) and len(test.ops) == 1 and isinstance(test.ops[0], ast.In):
+        v = val(test.comparators[0])
+        if isinstance(v, (tuple, list, set, frozenset)):
+            return norm(test.left), frozenset(v)
+    if isinstance(test, ast.Compare) and len(test.ops) == 1 and isinstance(test.ops[0], ast.Eq):
+        v = val(test.comparators[0])
+        if v is not None:
+            return norm(test.left), frozenset([v])
+    if isinstance(test, ast.BoolOp) and isinstance(test.op, ast.Or):
+        parts = [membership_test(t, evaluate) for t in test.values]
+        if all(p is not None for p in parts) and len({p[0] for p in parts}) == 1:
+            return parts[0][0], frozenset().union(*[p[1] for p in parts])
+    return None
